@@ -46,13 +46,13 @@ def do_import(wt, sid):
 
 
 def do_run(sid, checks):
-    d = os.path.join(VERIF, 'seeded', sid)
+    d = os.path.join(VERIF, sid) if '/' in sid else os.path.join(VERIF, 'seeded', sid)
     man = json.load(open(os.path.join(VERIF, 'MANIFEST.json')))
     if not checks:
         checks = [c['property_id'] for c in man['checks']]
     # the patch is applied in a scratch worktree of /repo (never in /repo itself); the checks read it through SPQA_REPO.
     # evidence files are written to a scratch directory so that the committed evidence is not disturbed.
-    wt = '/tmp/seedrun-%s-%d' % (sid, os.getpid())
+    wt = '/tmp/seedrun-%s-%d' % (sid.replace('/', '-'), os.getpid())
     sh('git worktree add --detach %s HEAD' % wt, cwd='/repo')
     results = {}
     try:
